@@ -171,9 +171,11 @@ def check_props(relpath, timeout=600):
             good.remove(failed[0])
         res["discharged"] = len(good)
         res["failed"] = failed + [t for t, l in thms if l > bad_line]
-    ass = re.findall(r"(Closed under the global context|Axioms:.*?)(?=\n\S|\Z)",
-                     out, flags=re.S)
-    res["assumptions"] = sorted(set(a.strip() for a in ass))
+    # "Closed under the global context", or "Axioms:" followed by the list of
+    # constants (up to the next Print Assumptions answer / end of output)
+    ass = re.findall(r"(Closed under the global context|Axioms:\n(?:(?!Closed under the global context|Axioms:).*\n?)*)",
+                     out)
+    res["assumptions"] = sorted(set(" ".join(a.split()) for a in ass))
     return res
 
 
